@@ -19,7 +19,7 @@ RULE = ("one run = one generated document, 1-3 (line, clone) pairs of any record
         "interleaved edits per pair; distinct = distinct (record type, edit kind, side) tuples x line digest")
 PROBES = ["connected_original", "standalone_original", "edit_clone", "edit_original", "inplace_list",
           "inplace_cigar", "inplace_oriented", "inplace_json", "inplace_numarray", "header_clone",
-          "clone_of_virtual", "edit_applied"]
+          "edit_applied"]
 EDITS = ["set_tag", "del_tag", "set_pos", "list_append", "list_pop", "cigar_op", "oriented", "json_inplace",
          "numarray_append", "fieldarray_append", "set_datatype", "trace_inplace", "list_item_inplace"]
 
@@ -73,6 +73,8 @@ def apply_edit(line, op, st, connected):
     if e == "del_tag" and tags:
         return core.call(line.delete, tags[j % len(tags)]), "delete"
     if e == "set_pos":
+        if line.is_connected():
+            return None      # positional edits of connected lines are restricted by design (C08's catalogue)
         pf = list(line.positional_fieldnames)
         if not pf:
             return None
@@ -158,7 +160,7 @@ def apply_edit(line, op, st, connected):
     fas = [(f, x) for f, x in mv if isinstance(x, gfapy.FieldArray)]
     if e == "fieldarray_append" and fas:
         f, x = fas[j % len(fas)]
-        return core.call(x.append, x[0] if len(x._data) else 1), "append to field array %s" % f
+        return core.call(x.append, x._data[0] if len(x._data) else 1), "append to field array %s" % f
     if e == "trace_inplace":
         tr = [(f, x) for f, x in mv if isinstance(x, gfapy.Trace)]
         if tr:
@@ -176,6 +178,8 @@ def run(scn, st):
     g = o.value
     orig = clone = None
     connected = False
+    dirty = set()
+    keep = []
     for n, op in enumerate(scn["ops"]):
         st.step()
         st.count("op." + op["op"])
@@ -208,6 +212,10 @@ def run(scn, st):
             pre_s = sstr(orig)
             c = core.call(orig.clone)
             st.count("oracle.clone_time")
+            if not c.ok and c.kind == "gfapy" and id(orig) in dirty:
+                # the original was edited into an invalid state by an earlier client edit: out of the claim
+                orig = clone = None
+                continue
             if not c.ok:
                 raise core.Violation("clone-raised", "clone() of %r raised %s: %s" % (pre_s, c.excname, str(c.exc)[:200]),
                                      rt=orig.record_type, exc=c.excname, frame=c.frame)
@@ -234,6 +242,9 @@ def run(scn, st):
             if res is None:
                 continue
             out, desc = res
+            if side == "orig":
+                dirty.add(id(orig))
+                keep.append(orig)
             st.count("probe.edit_clone" if side == "clone" else "probe.edit_original")
             if out.ok:
                 st.count("probe.edit_applied")
